@@ -44,6 +44,9 @@ func (p *Validator) ValidateMessage(mesg *Message) error {
 		}
 		for i := range mesg.Fields {
 			field := &mesg.Fields[i]
+			if field.FieldBase == nil {
+				continue // nothing to check: the message validator drops fields without FieldBase.
+			}
 			if field.BaseType&basetype.BaseTypeNumMask > basetype.Byte&basetype.BaseTypeNumMask { // byte was the last type added in 1.0
 				return fmt.Errorf("protocol version 1.0 do not support type %q: %w", field.BaseType, ErrProtocolViolation)
 			}
